@@ -1,5 +1,6 @@
 CONSTANTS Values = {0}  Wants = {"prv", "pub", "dflt"}  PathSet = "marks"  MaxOps = 3  SeedLen = 16  KeyMode = "full"
 SPECIFICATION Spec
 VIEW View
+INVARIANTS CacheTransparent ResultIsPure CompactSound MemoSound PublicStaysPublic ResOk
 ACTION_CONSTRAINT Emit
 CHECK_DEADLOCK FALSE
